@@ -34,7 +34,11 @@ def _irispie():
 
 
 NAME_POOL = ("a", "b", "c", "x", "y", "gdp", "cpi", "a_1", "long_name_q", "a b", "c,d", "é", "Z", "k1", "k2")
-DESC_POOL = ("", "", "plain", "with, comma", 'quote " inside', "  spaces  ", "uni ✓", "semi;colon", "two\nlines")
+# the last entry holds a line break (quoted by the csv writer); the ones before it hold characters that str.splitlines
+# treats as line boundaries but a text file does not (LINE SEPARATOR, NEXT LINE, vertical tab, form feed): not quoted,
+# they stay inside their cell
+DESC_POOL = ("", "", "plain", "with, comma", 'quote " inside', "  spaces  ", "uni ✓", "semi;colon", "line\u2028sep", "next\x85line",
+             "v\x0btab f\x0cfeed", "two\nlines")
 PREDICATES = {
     "starts_a": lambda n: n.startswith("a"),
     "short": lambda n: len(n) <= 1,
@@ -72,6 +76,17 @@ def item_equal(a, b):
     if isinstance(a, float) and isinstance(b, float) and math.isnan(a) and math.isnan(b):
         return True
     return type(a) is type(b) and a == b
+
+
+class _ExcNote(Exception):
+    """What the harness remembers of an exception it does not hold itself (type name and text)."""
+
+    def __init__(self, e):
+        super().__init__(str(e))
+        self.__class__ = type(type(e).__name__, (_ExcNote,), {})
+
+    def __reduce__(self):
+        return (Exception, (str(self),))
 
 
 class ExportRecord:
@@ -136,6 +151,7 @@ class DataboxWorld(World):
         _irispie()
         self.fs = simfs.SimFS()
         simfs.install(self.fs)
+        self._held = []        # exceptions of failed calls the caller has not let go yet
         self.boxes = {}        # handle -> real Databox
         self.owner = {}        # handle -> actor
         self.heap = {}         # id(series) -> (real series, SM)
@@ -702,6 +718,12 @@ class DataboxWorld(World):
                 "nan_str": rng.choice(["", "", "nan", "NaN"]), "plan": self._gen_fault_plan(flt)}
         if rng.random() < 0.2:
             args["pathlike"] = True
+        if rng.random() < 0.08:
+            # the caller's own date formatter fails on the k-th period it is shown: an export that dies in the middle
+            # without any I/O error
+            args["formatter_fails_at"] = rng.choice([0, 1, 2, 4])
+        if (args["plan"]["faults"] or "formatter_fails_at" in args) and rng.random() < 0.5:
+            args["hold_exception"] = True
         if rng.random() < 0.15:
             # another column delimiter, given to the writer and later to the reader of the same file
             args["delimiter"] = rng.choice([";", "\t", "|"])
@@ -833,6 +855,8 @@ class DataboxWorld(World):
         self.stats["op." + op] += 1
         if op in MUTATING:
             self.mutating_steps += 1
+        if self._held and op != "export":
+            self._release_held()
         with warnings.catch_warnings():
             warnings.simplefilter("ignore")
             with np.errstate(all="ignore"):
@@ -840,6 +864,15 @@ class DataboxWorld(World):
         self.max_live = max(self.max_live, len(self.boxes))
         self.stats["outcome." + out.split(":")[0]] += 1
         return out
+
+    def _release_held(self):
+        """The caller finally lets go of the exceptions it kept: frames die, and with them whatever they still held open."""
+        import gc
+        for e in self._held:
+            strip_traceback(e)
+        self._held.clear()
+        gc.collect()
+        self.probes["kept_exceptions_released"] += 1
 
     # oracle pieces -----------------------------------------------------------------------------
     def _check_heap(self, opname, pred, mutable=None):
@@ -922,9 +955,12 @@ class DataboxWorld(World):
         m = self.heap[x[1]][1]
         return ("s", Exp(m.freq, m.nv, m.cells, desc=m.desc if desc else None), "fresh" if fresh else ("same", x[1]))
 
-    def _run(self, opname, pred, thunk, *, must_hold=True, plan=None):
-        """Execute with the fault plan; returns (status, result|exception). status: ok | raised | crashed"""
+    def _run(self, opname, pred, thunk, *, must_hold=True, plan=None, hold=False):
+        """Execute with the fault plan; returns (status, result|exception). status: ok | raised | crashed
+        hold: the caller keeps the exception of a failed call (traceback and all) for a while, as an `except` block that
+        goes on working does: whatever the failed call left open stays open until the exception is let go"""
         self.fs.begin_step(plan)
+        status = "crashed"
         try:
             try:
                 r = thunk()
@@ -935,11 +971,16 @@ class DataboxWorld(World):
             except Exception as e:
                 if isinstance(e, (Violation, HarnessError)):
                     raise
-                strip_traceback(e)
-                r, status = e, "raised"
+                if hold:
+                    self._held.append(e)
+                    self.probes["exception_of_failed_call_kept_alive"] += 1
+                    r, status = _ExcNote(e), "raised"
+                else:
+                    strip_traceback(e)
+                    r, status = e, "raised"
         finally:
             self._last_counts = dict(self.fs.counts)
-            fired = self.fs.end_step()
+            fired = self.fs.end_step(crashed=(status == "crashed"))
         for k in fired:
             self.faults_fired[k] += 1
         if fired:
@@ -1607,6 +1648,16 @@ class DataboxWorld(World):
         kw = {"description_row": a["description_row"], "round": a["round"], "nan_str": a["nan_str"], "when_empty": a.get("when_empty") or "silent"}
         if a["names"] is not None:
             kw["names"] = list(a["names"])
+        if a.get("formatter_fails_at") is not None:
+            state = {"n": 0, "at": a["formatter_fails_at"]}
+
+            def formatter(period):
+                state["n"] += 1
+                if state["n"] > state["at"]:
+                    self._callback_failed = True
+                    raise RuntimeError("sim: the caller's date formatter failed")
+                return period.to_sdmx_string()
+            kw["date_formatter"] = formatter
         if a.get("delimiter"):
             kw["delimiter"] = a["delimiter"]
             self.probes["export_other_delimiter"] += 1
@@ -1653,7 +1704,11 @@ class DataboxWorld(World):
         kw = self._export_kwargs(a)
         pred = self._export_predicate(rec, a)
         target = __import__("pathlib").Path(path) if a.get("pathlike") else path     # a str or an os.PathLike: the same file
-        status, r, fired = self._run("export", pred, lambda: box.to_csv_file(target, **kw), plan=plan)
+        self._callback_failed = False
+        status, r, fired = self._run("export", pred, lambda: box.to_csv_file(target, **kw), plan=plan, hold=bool(a.get("hold_exception")))
+        if self._callback_failed:
+            fired = list(fired) + ["callback_error"]
+            self.faults_fired["callback_error"] += 1
         faulted = any(k not in ("short_write", "short_read", "eintr") for k in fired)
         # no other path may change, whatever happened
         for p, b in before.items():
@@ -1717,6 +1772,9 @@ class DataboxWorld(World):
         # returned normally: this is a completed export whatever faults were delivered
         if faulted:
             self.probes["export_completed_despite_fault"] += 1
+        if path not in self.fs.files:
+            self.disk.pop(path, None)
+            raise Violation("durability", "export", pred, "", f"to_csv_file returned normally{' (faults delivered: ' + ','.join(sorted(set(fired))) + ')' if faulted else ''} but there is no file {path}")
         self._check_heap("export", pred)
         self._check_bindings_unchanged("export", pred)
         self.disk[path] = ExportRecord(rec, a["description_row"], a["round"], self.seq, self._last_export_consecutive, a.get("delimiter"))
@@ -2050,6 +2108,8 @@ class DataboxWorld(World):
             if rec.description_row and any("\n" in v[3] for v in rec.series.values()):
                 parts.append("description_has_newline")
             pred = ",".join(parts)
+            if self._held:
+                self._release_held()
             kwr = {"delimiter": rec.delimiter} if rec.delimiter else {}
             status, r, _ = self._run("finish.reread", pred, lambda: ir.Databox.from_csv_file(path, description_row=rec.description_row, **kwr))
             if status != "ok":
